@@ -66,7 +66,7 @@ theorem shape_of_wf {env : Env} {v : Val} (h : v.wf env = true) :
     (env.sub (v.typeOf env) env.tupleCls = true → v.tupleItems.isSome = true) := by
   have hs := wf_shape h
   simp only [Val.shapeB, Bool.and_eq_true, Bool.or_eq_true, Bool.not_eq_true', List.all_eq_true] at hs
-  obtain ⟨⟨⟨⟨⟨h1, h2⟩, h3⟩, h4⟩, _⟩, _⟩ := hs
+  obtain ⟨⟨⟨⟨⟨⟨h1, h2⟩, h3⟩, h4⟩, _⟩, _⟩, _⟩ := hs
   refine ⟨?_, ?_, ?_, ?_⟩
   · intro hsub
     rcases h1 with h1 | h1
@@ -94,7 +94,7 @@ theorem seqNode_exact {env : Env} {pc : Bool} {sp0 : Spell} {o : SeqOrigin} {a :
       .ok (env.sub (v.typeOf env) (env.seqCls o) && (match v.iter with | some xs => xs.all p | Option.none => false)) := by
   unfold seqNode
   simp only [cfg_req_seq, cfg_req_seqT, cfg_genericChecksOrigin, cfg_origin_seq, cfg_iteratorSkip, not_iterator_of_plain hwf hp,
-    not_asdict_of_plain hp, cfg_convertible, hconv,
+    cfg_convertible, hconv,
     elemQuant_eq, Bool.true_and, Bool.not_true, Bool.false_eq_true, ↓reduceIte, Bool.and_false, Bool.and_true]
   by_cases hsub : env.sub (v.typeOf env) (env.seqCls o) = true
   · have := (shape_of_wf hwf).2.1 o hsub
@@ -113,7 +113,7 @@ theorem mapNode_exact {env : Env} {pc : Bool} {sp0 : Spell} {o : MapOrigin} {k w
         (match v.items with | some kvs => kvs.all (fun kv => p kv.1 && q kv.2) | Option.none => false)) := by
   unfold mapNode
   simp only [cfg_req_map, cfg_req_mapT, cfg_genericChecksOrigin, cfg_origin_map, cfg_itemsChecksKey, cfg_itemsChecksValue,
-    not_asdict_of_plain hp, cfg_convertible, hck, hcw,
+    cfg_convertible, hck, hcw,
     Bool.true_and, Bool.not_true, Bool.false_eq_true, ↓reduceIte, Bool.and_false, Bool.and_true]
   by_cases hsub : env.sub (v.typeOf env) (env.mapCls o) = true
   · have := (shape_of_wf hwf).2.2.1 o hsub
@@ -147,7 +147,7 @@ theorem tupleNode_exact {env : Env} {pc : Bool} {sp0 : Spell} {items : List Ann}
   have hreq : requiredArgsOk (tupleName (effSpell pc sp0)) items.length = true := by
     cases (effSpell pc sp0) <;> simp [tupleName, cfg_req_Tuple, cfg_req_tuple, hlen]
   simp only [hreq, cfg_req_Tuple, hlen, cfg_genericChecksOrigin, cfg_origin_tuple, cfg_tupleLengthTest,
-    not_asdict_of_plain hp, cfg_convertible, hconv, decide_true,
+    cfg_convertible, hconv, decide_true,
     Bool.true_and, Bool.not_true, Bool.false_eq_true, ↓reduceIte, Bool.and_false, Bool.and_true]
   by_cases hsub : env.sub (v.typeOf env) env.tupleCls = true
   · have := (shape_of_wf hwf).2.2.2 hsub
@@ -173,7 +173,7 @@ theorem tupleVarNode_exact {env : Env} {pc : Bool} {sp0 : Spell} {a : Ann} {v : 
   have hreq : requiredArgsOk (tupleName (effSpell pc sp0)) 2 = true := by
     cases (effSpell pc sp0) <;> simp [tupleName, cfg_req_Tuple, cfg_req_tuple]
   simp only [hreq, cfg_req_Tuple, cfg_genericChecksOrigin, cfg_origin_tuple,
-    not_asdict_of_plain hp, cfg_convertible, hconv,
+    cfg_convertible, hconv,
     Bool.true_and, Bool.not_true, Bool.false_eq_true, ↓reduceIte, Bool.and_false, Bool.and_true]
   by_cases hsub : env.sub (v.typeOf env) env.tupleCls = true
   · have := (shape_of_wf hwf).2.2.2 hsub
@@ -190,7 +190,7 @@ theorem typeOfNode_exact {env : Env} (hw : WfEnv env) {pc : Bool} {sp0 : Spell} 
   simp only [conforms]
   unfold typeOfNode
   have hconv : convOk a = true := typeArgOk_convOk a ha
-  simp only [cfg_req_type, cfg_req_Type, cfg_genericChecksOrigin, cfg_origin_type, not_asdict_of_plain hp, cfg_convertible, hconv,
+  simp only [cfg_req_type, cfg_req_Type, cfg_genericChecksOrigin, cfg_origin_type, cfg_convertible, hconv,
     Bool.true_and, Bool.not_true, Bool.false_eq_true, ↓reduceIte, Bool.and_false, Bool.and_true]
   by_cases hsub : env.sub (v.typeOf env) env.typeCls = true
   · obtain ⟨c, rfl⟩ := (shape_of_wf hwf).1 hsub
@@ -219,11 +219,18 @@ theorem exact_raw (env : Env) (orc : Nat → Val → Raw) (hw : WfEnv env) :
     (motive_3 := fun pc ms v => E3 env orc pc ms v)
     (motive_4 := fun _ _ _ _ _ => True)
   case case1 => intro _ _ h; simp [Ann.okC] at h
-  case case2 => intro _ c v _ _ hp; simp [isInstance, clsNode, conforms, not_asdict_of_plain hp]
+  case case2 =>
+    intro _ c v _ hwf hp
+    simp only [isInstance, clsNode, conforms]
+    split
+    · rename_i hnt; exact ntNode_of_plain hw hnt hwf hp
+    · rfl
   case case3 =>
-    intro _ c names anns v _ _ _ hp
+    intro _ c names anns v _ _ hwf hp
     simp only [isInstance, conforms, clsFNode]
-    cases v <;> simp_all [Val.plain]
+    split
+    · rename_i hnt; exact ntNode_of_plain hw hnt hwf hp
+    · rfl
   case case4 => intro _ _ _ _ _; simp [isInstance, anyNode, cfg_special_any, conforms]
   case case5 =>
     intro _ sp ms v ih hok hwf hp
@@ -242,11 +249,13 @@ theorem exact_raw (env : Env) (orc : Nat → Val → Raw) (hw : WfEnv env) :
     simp only [isInstance]
     exact typeOfNode_exact hw hwf hp hok
   case case9 =>
-    intro _ n v hok _ hp
+    intro _ n v hok hwf hp
     simp only [Ann.okC, Option.isSome_iff_exists] at hok
     obtain ⟨c, hc⟩ := hok
     simp only [isInstance, fwdNode, conforms, hc]
-    cases v <;> simp_all [Val.plain]
+    split
+    · rename_i hnt; exact ntNode_of_plain hw hnt hwf hp
+    · rfl
   case case10 => intro _ _ _ h; simp [Ann.okC] at h
   case case11 =>
     intro pc sp0 o a v ih hok hwf hp
@@ -314,7 +323,7 @@ theorem bareNode_cases (env : Env) (o : BareOrigin) (v : Val) :
   unfold bareNode at hne ⊢
   by_cases hb : o.isBuiltin = true
   · simp only [cfg_req_bare_builtin o hb, hb, cfg_bare o hb, Bool.not_true, Bool.false_eq_true, ↓reduceIte]
-    split <;> simp
+    simp
   · have hb' : o.isBuiltin = false := by simpa using hb
     simp [cfg_req_bare o hb']
 
